@@ -251,6 +251,36 @@ def run_case(report, scen, rng, adversarial):
                     report.count("kv_index_" + str(r["index"]))
 
 
+def substring_family(report, scen, rng):
+    """events that reach the matcher of a single-value tag filter without carrying the requested value — through the tag
+    index's prefix walk (a value that merely starts with it) or through an ids clause — and that carry, under the same name,
+    a proper substring of the requested value (the empty string included)"""
+    from lib import gen
+
+    name = rng.choice(["t", "t", "d", "g"])
+    want = rng.choice(["abc", "abcd", "bc", "ab"])
+    subs = sorted({want[i:j] for i in range(len(want)) for j in range(i, len(want) + 1)} - {want})
+    evs = []
+    for i in range(rng.randint(3, 7)):
+        r = rng.random()
+        first = want + rng.choice(["d", "x", "\x00", "bc"]) if r < 0.6 else rng.choice(subs) if r < 0.8 else want
+        tags = [[name, first], [name, rng.choice(subs)]]
+        if rng.random() < 0.3:
+            tags.reverse()
+        evs.append({"id": gen.mkid(rng), "pubkey": rng.choice(gen.AUTHORS[:3]), "created_at": gen.T0 + i, "kind": 1, "tags": tags,
+                    "content": "", "sig": "00" * 64})
+    scen.load(evs)
+    ids = [e["id"] for e in evs]
+    for f in ({"#" + name: [want]}, {"#" + name: [want], "kinds": [1]}, {"ids": ids, "#" + name: [want]},
+              {"#" + name: [want], "authors": gen.AUTHORS[:3]}, {"#" + name: [rng.choice(subs) or want]}):
+        for rec in (scen.ask_kv(dict(f)), scen.ask_sql([dict(f)])):
+            oracle(report, rec)
+            if rec is not None and rec["ids"] is not None:
+                report.case((rec["backend"], repr(rec["filters"]), len(evs)), nontrivial=True,
+                            sample={"backend": rec["backend"], "filters": rec["filters"], "returned": len(rec["ids"])})
+        report.count("substring_family_filters")
+
+
 def replay_one(report, scen, r):
     scen.load(r["events"])
     if r["backend"] == "kv":
@@ -284,6 +314,8 @@ def run(report, tier, seed):
             run_case(report, scen, rng, adversarial=False)
         for i in range(n[1]):
             run_case(report, scen, rng, adversarial=True)
+        for i in range(8 if tier == "quick" else 100):
+            substring_family(report, scen, rng)
     finally:
         scen.close()
         drv.close()
